@@ -47,10 +47,10 @@ impl<K, V> BTreeMap<K, V> {
 
 // ---- specification
 // the answer to one acknowledgement and what it leaves of the retained notifications
-pub open spec fn ack_status(subs: Map<u32, Subscription>, q: Map<(u32, u32), NotificationMessage>, a: SubscriptionAcknowledgement) -> StatusCode {
-    if !subs.contains_key(a.subscription_id) { StatusCode::BadSubscriptionIdInvalid }
-    else if q.contains_key((a.subscription_id, a.sequence_number)) { StatusCode::Good }
-    else { StatusCode::BadSequenceNumberUnknown }
+pub open spec fn ack_ok(st: StatusCode, subs: Map<u32, Subscription>, q: Map<(u32, u32), NotificationMessage>, a: SubscriptionAcknowledgement) -> bool {
+    if !subs.contains_key(a.subscription_id) { st != StatusCode::Good }       // (which Bad status: not part of the property)
+    else if q.contains_key((a.subscription_id, a.sequence_number)) { st == StatusCode::Good }
+    else { st == StatusCode::BadSequenceNumberUnknown }
 }
 pub open spec fn ack_queue(subs: Map<u32, Subscription>, q: Map<(u32, u32), NotificationMessage>, a: SubscriptionAcknowledgement) -> Map<(u32, u32), NotificationMessage> {
     if subs.contains_key(a.subscription_id) { q.remove((a.subscription_id, a.sequence_number)) } else { q }
@@ -66,9 +66,10 @@ pub open spec fn acked(subs: Map<u32, Subscription>, q: Map<(u32, u32), Notifica
 SPEC = {
     'find_notification_message': ('r', '''        ensures
             // Republish: the retained message, exactly as it was stored
-            r == (if !self.subscriptions@.contains_key(subscription_id) { Err::<NotificationMessage, StatusCode>(StatusCode::BadSubscriptionIdInvalid) }
-                  else if self.retransmission_queue@.contains_key((subscription_id, sequence_number)) { Ok::<NotificationMessage, StatusCode>(self.retransmission_queue@[(subscription_id, sequence_number)]) }
-                  else { Err::<NotificationMessage, StatusCode>(StatusCode::BadMessageNotAvailable) }),'''),
+            // (which status an unavailable message gets is not part of the property)
+            if self.subscriptions@.contains_key(subscription_id) && self.retransmission_queue@.contains_key((subscription_id, sequence_number)) {
+                r == Ok::<NotificationMessage, StatusCode>(self.retransmission_queue@[(subscription_id, sequence_number)])
+            } else { r is Err },'''),
     'process_subscription_acknowledgements': ('r', '''        ensures
             final(self).subscriptions@ == old(self).subscriptions@,
             request.subscription_acknowledgements is None ==> r is None && final(self).retransmission_queue@ == old(self).retransmission_queue@,
@@ -78,7 +79,7 @@ SPEC = {
                 let q0 = old(self).retransmission_queue@;
                 &&& r is Some && r->Some_0@.len() == acks.len()
                 // one answer per acknowledgement, in order, each judged against what the earlier ones left
-                &&& forall|i: int| 0 <= i < acks.len() ==> #[trigger] r->Some_0@[i] == ack_status(subs, acked(subs, q0, acks, i), acks[i])
+                &&& forall|i: int| 0 <= i < acks.len() ==> ack_ok(#[trigger] r->Some_0@[i], subs, acked(subs, q0, acks, i), acks[i])
                 &&& final(self).retransmission_queue@ == acked(subs, q0, acks, acks.len() as int)
             }),'''),
 }
@@ -99,14 +100,14 @@ proof fn lemma_other_entries_untouched(subs: Map<u32, Subscription>, q: Map<(u32
 }
 // after an acknowledgement answered Good the notification is gone (Republish answers BadMessageNotAvailable)
 proof fn lemma_acknowledged_is_gone(subs: Map<u32, Subscription>, q: Map<(u32, u32), NotificationMessage>, a: SubscriptionAcknowledgement)
-    requires ack_status(subs, q, a) == StatusCode::Good,
+    requires ack_ok(StatusCode::Good, subs, q, a),
     ensures !ack_queue(subs, q, a).contains_key((a.subscription_id, a.sequence_number)),
         forall|k: (u32, u32)| k != (a.subscription_id, a.sequence_number) ==> ack_queue(subs, q, a).contains_key(k) == q.contains_key(k),
 {
 }
 // an acknowledgement that is refused changes nothing
 proof fn lemma_refused_changes_nothing(subs: Map<u32, Subscription>, q: Map<(u32, u32), NotificationMessage>, a: SubscriptionAcknowledgement)
-    requires ack_status(subs, q, a) != StatusCode::Good,
+    requires !ack_ok(StatusCode::Good, subs, q, a),
     ensures ack_queue(subs, q, a) =~= q,
 {
 }
@@ -114,7 +115,7 @@ proof fn lemma_refused_changes_nothing(subs: Map<u32, Subscription>, q: Map<(u32
 
 CANARY = '''
 proof fn canary_retained(subs: Map<u32, Subscription>, q: Map<(u32, u32), NotificationMessage>, a: SubscriptionAcknowledgement)
-    requires ack_status(subs, q, a) == StatusCode::Good, q.contains_key((7u32, 8u32)),
+    requires ack_ok(StatusCode::Good, subs, q, a), q.contains_key((7u32, 8u32)),
     ensures false,
 {}
 '''
@@ -140,7 +141,7 @@ def build(manifest):
                     self.subscriptions@ == old(self).subscriptions@,
                     results@.len() == idx_subscription_acknowledgement,
                     self.retransmission_queue@ == acked(old(self).subscriptions@, old(self).retransmission_queue@, subscription_acknowledgements@, idx_subscription_acknowledgement as int),
-                    forall|i: int| 0 <= i < idx_subscription_acknowledgement ==> #[trigger] results@[i] == ack_status(old(self).subscriptions@,
+                    forall|i: int| 0 <= i < idx_subscription_acknowledgement ==> ack_ok(#[trigger] results@[i], old(self).subscriptions@,
                         acked(old(self).subscriptions@, old(self).retransmission_queue@, subscription_acknowledgements@, i), subscription_acknowledgements@[i]),
                 decreases subscription_acknowledgements@.len() - idx_subscription_acknowledgement,''')
     f['process_subscription_acknowledgements'] = g
